@@ -25,9 +25,10 @@ def run(ctx):
     for cfg in (["FULL"] if ctx.tier == "quick" else ["FULL", "MIN"]):
         prog = ctx.program(cfg)
         cstr(ctx, prog)
+        checked_utf8(ctx, prog, cfg)
         concat(ctx, prog)
     expansions(ctx)
-    ctx.floor("CSTR", 6)
+    ctx.floor("CSTR", 7)
     ctx.floor("CONCAT", 14)
     ctx.floor("EXPAND", 3)
 
@@ -189,6 +190,35 @@ def cstr(ctx, prog):
         if msg:
             _viol(ctx, "CSTR", cfg + "|to_str", "to_str must be the checked from_utf8 of to_bytes_with_nul(this) without its last byte: %s" % msg, b)
         ctx.instance("CSTR", cfg + "|to_str")
+
+
+def checked_utf8(ctx, prog, cfg):
+    """konst::string::from_utf8 (what to_str and ArrayStr::as_str call) is core's checked validation, result passed on"""
+    b = ctx.anchor(prog, "konst::string::from_utf8")
+    if b is None:
+        return
+    c = ("call", "core::str::from_utf8", None, P1)
+    seen = set()
+    msg = None
+    for p in sym.paths_of(b, prog):
+        v = table.strip_gargs(p.value) if isinstance(p.value, tuple) else p.value
+        conds = [table.norm_atom(table.strip_gargs(x)) for x in p.conds]
+        if p.kind != "return":
+            msg = msg or "can %s" % p.kind
+        elif v == c:
+            seen |= {0, 1}
+        elif ("is", c, 0) in conds and v == ("agg", "adt:core::result::Result::Ok#0", ("vfield", c, 0, 0)):
+            seen.add(0)
+        elif ("is", c, 1) in conds and v[0] == "agg" and v[1].endswith("Result::Err#1") and v[2][0] == "agg" and "Utf8Error" in v[2][1] \
+                and v[2][2:] == (("vfield", c, 1, 0),):
+            seen.add(1)
+        else:
+            msg = msg or "returns %s" % show(v)
+    if seen != {0, 1}:
+        msg = msg or "does not pass on both outcomes of core::str::from_utf8"
+    if msg:
+        _viol(ctx, "CSTR", cfg + "|from_utf8", "string::from_utf8 must be core::str::from_utf8 with Ok passed on and the error wrapped: %s" % msg, b)
+    ctx.instance("CSTR", cfg + "|from_utf8")
 
 
 def _strip(paths):
